@@ -72,20 +72,40 @@ static inline void vp_throw(void *obj, int tid){
   if (vp_nothrow_flag) { __CPROVER_assert(0, "VP:unexpected C++ exception in a no-throw region"); __CPROVER_assume(0); }
   vp_exc.active = 1; vp_exc.obj = obj; vp_exc.tid = tid; }
 
-/* race instrumentation (DESIGN C12): ghost reader/writer marks on declared-shared regions */
+/* race instrumentation (lockset discipline, decided in a sequential run): every non-atomic IR load/store (and, with the
+   pseudo-lock ATOMIC, every atomic one) on the declared-shared region records the logical thread and the set of mutexes held;
+   two conflicting accesses from different logical threads whose locksets are disjoint are a C++ data race for the documented
+   usage in which those threads run concurrently. */
 #ifdef VP_RACE
-extern const u8 *vp_sh_base; extern u64 vp_sh_size; extern u8 vp_sh_w[]; extern u8 vp_sh_r[];
-#define VP_RACE_IN(p) ((const u8*)(p) >= vp_sh_base && (const u8*)(p) < vp_sh_base + vp_sh_size)
-#define VP_RACE_IDX(p) ((u64)((const u8*)(p) - vp_sh_base))
-#define VP_RACE_W_BEGIN(p,n) do{ if(VP_RACE_IN(p)){ __CPROVER_atomic_begin(); __CPROVER_assert(!vp_sh_w[VP_RACE_IDX(p)] && !vp_sh_r[VP_RACE_IDX(p)], "RACE:write conflicts with concurrent access"); vp_sh_w[VP_RACE_IDX(p)]=1; __CPROVER_atomic_end(); } }while(0)
-#define VP_RACE_W_END(p,n) do{ if(VP_RACE_IN(p)){ vp_sh_w[VP_RACE_IDX(p)]=0; } }while(0)
-#define VP_RACE_R_BEGIN(p,n) do{ if(VP_RACE_IN(p)){ __CPROVER_atomic_begin(); __CPROVER_assert(!vp_sh_w[VP_RACE_IDX(p)], "RACE:read conflicts with concurrent write"); vp_sh_r[VP_RACE_IDX(p)]++; __CPROVER_atomic_end(); } }while(0)
-#define VP_RACE_R_END(p,n) do{ if(VP_RACE_IN(p)){ __CPROVER_atomic_begin(); vp_sh_r[VP_RACE_IDX(p)]--; __CPROVER_atomic_end(); } }while(0)
+#define VP_LS_ATOMIC 0x80000000u
+extern const u8 *vp_sh_base; extern u64 vp_sh_size; extern u8 vp_cur_thr; extern u32 vp_cur_ls;
+extern u8 vp_wthr[64], vp_rthr[64]; extern u32 vp_wls[64], vp_rls[64];
+static inline void vp_race_acc(const u8 *p, u64 n, int isw, u32 extra)
+{
+  u32 ls = vp_cur_ls | extra;
+  for (u64 i = 0; i < n; i++) {
+    u64 b = (u64)(p + i) - (u64)vp_sh_base;
+    if (vp_sh_base != 0 && __CPROVER_POINTER_OBJECT(p) == __CPROVER_POINTER_OBJECT(vp_sh_base) && b < vp_sh_size && b < 64) {
+      if (vp_wthr[b] != 0 && vp_wthr[b] != vp_cur_thr) __CPROVER_assert((vp_wls[b] & ls) != 0, "RACE:access conflicts with a write of another thread and no common lock is held");
+      if (isw && vp_rthr[b] != 0 && vp_rthr[b] != vp_cur_thr) __CPROVER_assert((vp_rls[b] & ls) != 0, "RACE:write conflicts with a read of another thread and no common lock is held");
+      if (isw) { vp_wls[b] = (vp_wthr[b] == 0) ? ls : (vp_wls[b] & ls); vp_wthr[b] = (vp_wthr[b] == 0 || vp_wthr[b] == vp_cur_thr) ? vp_cur_thr : 255; }
+      else { vp_rls[b] = (vp_rthr[b] == 0) ? ls : (vp_rls[b] & ls); vp_rthr[b] = (vp_rthr[b] == 0 || vp_rthr[b] == vp_cur_thr) ? vp_cur_thr : 255; }
+    }
+  }
+}
+#define VP_RACE_W_BEGIN(p,n) vp_race_acc((const u8*)(p), (n), 1, 0)
+#define VP_RACE_W_END(p,n) ((void)0)
+#define VP_RACE_R_BEGIN(p,n) vp_race_acc((const u8*)(p), (n), 0, 0)
+#define VP_RACE_R_END(p,n) ((void)0)
+#define VP_RACE_AW(p,n) vp_race_acc((const u8*)(p), (n), 1, VP_LS_ATOMIC)
+#define VP_RACE_AR(p,n) vp_race_acc((const u8*)(p), (n), 0, VP_LS_ATOMIC)
 #else
 #define VP_RACE_W_BEGIN(p,n) ((void)0)
 #define VP_RACE_W_END(p,n) ((void)0)
 #define VP_RACE_R_BEGIN(p,n) ((void)0)
 #define VP_RACE_R_END(p,n) ((void)0)
+#define VP_RACE_AW(p,n) ((void)0)
+#define VP_RACE_AR(p,n) ((void)0)
 #endif
 
 /* heap model: blocks of symbolic size are allocated at the constant capacity VP_HEAP_MAX (a symbolic-size
